@@ -78,6 +78,16 @@ func init() {
 		hp + "vCover":   vCover,
 		hp + "vKnown":   vKnown,
 		hp + "vTier":    func(cc *callCtx) (Value, error) { return cc.c().Const(64, uint64(cc.ex.cfg.Tier)), nil },
+		hp + "vIte64": func(cc *callCtx) (Value, error) { return cc.c().Ite(cc.term(0), cc.term(1), cc.term(2)), nil },
+		hp + "vAnd":   func(cc *callCtx) (Value, error) { return cc.c().And(cc.term(0), cc.term(1)), nil },
+		hp + "vOr":    func(cc *callCtx) (Value, error) { return cc.c().Or(cc.term(0), cc.term(1)), nil },
+		hp + "vSplit": func(cc *callCtx) (Value, error) {
+			v, err := cc.ex.concretize(cc.st, cc.term(0), "vSplit")
+			if err != nil {
+				return nil, err
+			}
+			return cc.c().Const(cc.term(0).W, v), nil
+		},
 		hp + "vSymbolic": func(cc *callCtx) (Value, error) { return cc.c().True, nil },
 		hp + "vUnsupported": func(cc *callCtx) (Value, error) {
 			return nil, unsupported("harness: %s", cc.str(0))
